@@ -176,7 +176,10 @@ def orc_bids_rebuild(case):
     if same.relpath != path:
         return f'{path}: sibling look-up with the same desc and suffix gives {same.relpath}'
     want_abs = os.path.join(root, path)
-    if layout.abs_path(f) != want_abs or f.fpath != want_abs:
+    if 'root' in case:      # sweep roots (trailing separator, relative, '.'): the same file, whatever the spelling of the join
+        if os.path.normpath(layout.abs_path(f)) != os.path.normpath(want_abs) or os.path.normpath(f.fpath) != os.path.normpath(want_abs):
+            return f'{path}: absolute path {layout.abs_path(f)} / {f.fpath}, expected {want_abs} (root {root!r})'
+    elif layout.abs_path(f) != want_abs or f.fpath != want_abs:
         return f'{path}: absolute path {layout.abs_path(f)} / {f.fpath}, expected {want_abs}'
     return None
 
@@ -539,6 +542,8 @@ def orc_mne_real(case):
     want = dict(filename=fname, **{k: v for k, v in case['pairs'] if k in ('sub', 'run', 'task')})
     if not close(ds.measurements, data, 1e-6):
         return 'measurements differ from the data of the saved epochs'
+    if 'scale' in case and not _relclose(ds.measurements, data, 1e-6):      # sweep: relative to the size of the data
+        return f'measurements differ from the data of the saved epochs (data of size {float(np.abs(data).max()):.3g})'
     ds.measurements = data  # float32 storage of the fif file: compared with tolerance above
     tm = np.asarray(ds.time_descriptors.get('time', []), dtype=float)
     if tm.shape != times.shape or np.abs(tm - times).max() > 1e-9:
@@ -611,10 +616,39 @@ def _stim_names(kind, n, seed):
     elif kind == 'ragged':
         pool = ['a', 'bbbb', 'cc', 'zebra', 'ab', 'apple10', 'apple2', 'm']
         base = pool[:n]
+    elif kind == 'numeric-strings':       # sweep: alphabetical order differs from numerical order ('10' < '100' < '9')
+        pool = ['10', '9', '100', '07', '1', '55', '8', '090', '2', '21', '200', '3']
+        base = pool[:n]
+    elif kind == 'many':                  # sweep: more stimuli than the pools have
+        base = [('s%d' % (i * 7 % n)) if i % 2 else ('item%02d' % i) for i in range(n)]
     else:
         raise ValueError(kind)
     order = rs.permutation(n)
     return [base[i] for i in order]
+
+
+def _with_ext(names, ext):
+    """file names of the stimuli; 'mixed': extensions of different length in one file"""
+    if ext == 'mixed':
+        return [s + ('.png', '.jpeg', '.tif')[sum(map(ord, s)) % 3] for s in names]     # a stimulus keeps its file name
+    return [s + ext for s in names]
+
+
+def _case_utv(case, n, offset):
+    """the dissimilarities written to the file: sentinel values, optionally (sweep) integer-typed / float32 / in other units"""
+    kind = case.get('values', 'float')
+    npairs = n * (n - 1) // 2
+    if kind == 'int':               # whole numbers: a JSON writer stores 3 and not 3.0, MATLAB may store an integer class
+        return (np.arange(npairs) * 3 + 1 + int(offset)).astype(np.int64)
+    if kind == 'int16':
+        return (np.arange(npairs) * 3 + 1 + int(offset)).astype(np.int16)
+    utv = _utv(n, offset) * case.get('scale', 1.0)
+    return utv.astype(np.float32) if kind == 'float32' else utv
+
+
+def _file_bytes(fpath):
+    with open(fpath, 'rb') as fh:
+        return fh.read()
 
 
 def _pair_map(labels, utv):
@@ -679,13 +713,16 @@ def orc_meadows_mat_single(case):
     n = case['n_stim']
     names = _stim_names(case['names'], n, case['seed'])
     ext = case.get('stim_ext', '.png')
-    utv = _utv(n, 0.0)
+    utv = _case_utv(case, n, 0.0)
     fc = dict(shape='single-participant-single-task', exp=case['exp'], version=case['version'], participant=case['participant'],
               task_index=case['task_index'], structure='1D', ext='mat')
     with tempfile.TemporaryDirectory() as d:
         fpath = os.path.join(d, _meadows_fname(fc))
-        savemat(fpath, dict(stimuli=np.array([s + ext for s in names]), rdmutv=utv[None, :]))
+        savemat(fpath, dict(stimuli=np.array(_with_ext(names, ext)), rdmutv=utv[None, :]))
+        raw = _file_bytes(fpath)
         rdms, sort = _load(fpath, case['sort'])
+        if _file_bytes(fpath) != raw or os.listdir(d) != [os.path.basename(fpath)]:
+            return 'loading changed the file / its directory'
     r = _check_meadows_rdms(rdms, names, [utv], sort, dict(participant=[case['participant']], task_index=[case['task_index']]),
                             case['exp'])
     if r:
@@ -708,8 +745,8 @@ def orc_meadows_mat_multi(case):
             per_part_names.append([names[i] for i in np.roll(np.arange(n), p)])
         else:
             per_part_names.append(list(names))
-    utvs = [_utv(n, 100.0 * p) for p in range(len(parts))]
-    stim_vars = [('stimuli_' + p.replace('-', '_'), np.array([s + ext for s in per_part_names[i]])) for i, p in enumerate(parts)]
+    utvs = [_case_utv(case, n, 100.0 * p) for p in range(len(parts))]
+    stim_vars = [('stimuli_' + p.replace('-', '_'), np.array(_with_ext(per_part_names[i], ext))) for i, p in enumerate(parts)]
     utv_vars = [('rdmutv_' + p.replace('-', '_'), utvs[i][None, :]) for i, p in enumerate(parts)]
     layout = case.get('layout', 'interleaved')
     if layout == 'interleaved':
@@ -729,7 +766,10 @@ def orc_meadows_mat_multi(case):
     with tempfile.TemporaryDirectory() as d:
         fpath = os.path.join(d, _meadows_fname(fc))
         savemat(fpath, dict(items))
+        raw = _file_bytes(fpath)
         rdms, sort = _load(fpath, case['sort'])
+        if _file_bytes(fpath) != raw or os.listdir(d) != [os.path.basename(fpath)]:
+            return 'loading changed the file / its directory'
     # every participant's values are compared with THAT participant's stimulus order in the file
     if rdms.n_rdm != len(parts):
         return f'{rdms.n_rdm} RDMs, file has {len(parts)} participants'
@@ -768,15 +808,15 @@ def orc_meadows_json(case):
             tasks.append(dict(status='finished', task=dict(name='gi%d' % pos, task_type='info'), stimuli=[], trials=[], isInfo=True))
         elif kind == 'other':
             tasks.append(dict(status='finished', task=dict(name='tri%d' % pos, task_type='triplets'),
-                              stimuli=[dict(name=s + ext, id='x') for s in names], trials=[]))
+                              stimuli=[dict(name=s, id='x') for s in _with_ext(names, ext)], trials=[]))
         elif kind == 'nometa':
             tasks.append(dict(status='finished', stimuli=[], trials=[]))
         else:
             these = list(names) if kind == 'ma' else [names[i] for i in np.roll(np.arange(n), 1)]
-            utv = _utv(n, 100.0 * n_ma)
+            utv = _case_utv(case, n, 100.0 * n_ma)
             tasks.append(dict(status='finished', task=dict(name='ma%d' % (n_ma + 1), task_type='multiarrange'),
-                              stimuli=[dict(name=s + ext, id='id%d' % i, path='p/%d.png' % i) for i, s in enumerate(these)],
-                              rdm=[float(x) for x in utv], trials=[]))
+                              stimuli=[dict(name=s, id='id%d' % i, path='p/%d.png' % i) for i, s in enumerate(_with_ext(these, ext))],
+                              rdm=[x.item() for x in utv], trials=[]))
             if kind == 'ma':
                 want_names.append('ma%d' % (n_ma + 1))
                 want_pos.append(pos)
@@ -786,11 +826,21 @@ def orc_meadows_json(case):
               structure='tree', ext='json')
     with tempfile.TemporaryDirectory() as d:
         fpath = os.path.join(d, _meadows_fname(fc))
+        doc = dict(token=None, tasks=tasks)
+        if case.get('key_order') == 'reversed':       # sweep: the order of the keys inside the json objects carries no meaning
+            def rev(o):
+                if isinstance(o, dict):
+                    return {k: rev(o[k]) for k in reversed(list(o))}
+                return [rev(x) for x in o] if isinstance(o, list) else o
+            doc = rev(doc)
         with open(fpath, 'w', encoding='utf-8') as fh:
-            json.dump(dict(token=None, tasks=tasks), fh)
+            json.dump(doc, fh)
+        raw = _file_bytes(fpath)
         with warnings.catch_warnings(record=True) as w:
             warnings.simplefilter('always')
             rdms, sort = _load(fpath, case['sort'])
+        if _file_bytes(fpath) != raw or os.listdir(d) != [os.path.basename(fpath)]:
+            return 'loading changed the file / its directory'
     r = _check_meadows_rdms(rdms, names, want_utvs, sort,
                             dict(participant=[case['participant']] * len(want_names), task=want_names), case['exp'])
     if r:
@@ -802,6 +852,82 @@ def orc_meadows_json(case):
             return f'task_index {tidx} does not follow the positions {want_pos} of the tasks in the file'
     if 'ma-other-stimuli' in case['tasks'] and not w:
         return 'a multiarrange task with different stimuli was dropped without a warning'
+    return None
+
+
+def _meadows_write(kind, case, d):
+    """write one Meadows file of the given kind into directory d; returns (path, stimulus names in file order, the vectors,
+    expected rdm descriptors)"""
+    from scipy.io import savemat
+    n = case['n_stim']
+    names = _stim_names(case['names'], n, case['seed'])
+    off = case.get('offset', 0.0)
+    if kind == 'mat-single':
+        utvs = [_case_utv(case, n, off)]
+        fc = dict(shape='single-participant-single-task', exp='seqExp', version=3, participant='able-fly', task_index=2,
+                  structure='1D', ext='mat')
+        fpath = os.path.join(d, _meadows_fname(fc))
+        savemat(fpath, dict(stimuli=np.array(_with_ext(names, '.png')), rdmutv=utvs[0][None, :]))
+        desc = dict(participant=['able-fly'], task_index=[2])
+    elif kind == 'mat-multi':
+        parts = ['wise-ox', 'able-fly']
+        utvs = [_case_utv(case, n, off + 100.0 * q) for q in range(len(parts))]
+        items = {}
+        for q, nm in enumerate(parts):
+            items['stimuli_' + nm.replace('-', '_')] = np.array(_with_ext(names, '.png'))
+            items['rdmutv_' + nm.replace('-', '_')] = utvs[q][None, :]
+        fc = dict(shape='multi-participant-single-task', exp='seqExp', version=3, task_name='arrangement', structure='1D', ext='mat')
+        fpath = os.path.join(d, _meadows_fname(fc))
+        savemat(fpath, items)
+        desc = dict(participant=parts, task=['arrangement'] * len(parts))
+    elif kind == 'json':
+        utvs = [_case_utv(case, n, off + 100.0 * q) for q in range(2)]
+        tasks = [dict(status='finished', task=dict(name='gi', task_type='info'), stimuli=[], trials=[])]
+        for q in range(2):
+            tasks.append(dict(status='finished', task=dict(name='ma%d' % (q + 1), task_type='multiarrange'),
+                              stimuli=[dict(name=x, id='id%d' % i) for i, x in enumerate(_with_ext(names, '.png'))],
+                              rdm=[x.item() for x in utvs[q]], trials=[]))
+        fc = dict(shape='single-participant-multi-task', exp='seqExp', version=3, participant='able-fly', structure='tree', ext='json')
+        fpath = os.path.join(d, _meadows_fname(fc))
+        with open(fpath, 'w', encoding='utf-8') as fh:
+            json.dump(dict(tasks=tasks), fh)
+        desc = dict(participant=['able-fly'] * 2, task=['ma1', 'ma2'])
+    else:
+        raise ValueError(kind)
+    return fpath, names, utvs, desc
+
+
+@oracle('C20/meadows-sequence')
+def orc_meadows_sequence(case):
+    """call sequences: two files with the SAME name and shape in different directories and with different content are each
+    loaded with their own content, in whatever order and however often; a result held by the caller (unsorted) does not change
+    when the same file is loaded again with sort=True"""
+    from rsatoolbox.io.meadows import load_rdms
+    kind = case['kind']
+    other = dict(case, seed=case['seed'] + 1, offset=case.get('offset', 0.0) + 1000.0)
+    with tempfile.TemporaryDirectory() as da, tempfile.TemporaryDirectory() as db:
+        fa, na, ua, desc = _meadows_write(kind, case, da)
+        fb, nb, ub, _ = _meadows_write(kind, other, db)
+        if os.path.basename(fa) != os.path.basename(fb):
+            return 'oracle error: the two files must have the same name'
+        r1 = load_rdms(fa, sort=False)
+        r = _check_meadows_rdms(r1, na, ua, False, desc, 'seqExp')
+        if r:
+            return 'first load: ' + r
+        snap = (list(r1.pattern_descriptors['conds']), np.array(r1.dissimilarities, copy=True),
+                {k: list(v) for k, v in r1.rdm_descriptors.items()})
+        for label, fp, nm, uv, sort in (('file of the same name with other content', fb, nb, ub, True),
+                                        ('first file again, sorted', fa, na, ua, True),
+                                        ('first file again, unsorted', fa, na, ua, False),
+                                        ('other file, unsorted', fb, nb, ub, False),
+                                        ('first file, default', fa, na, ua, 'default')):
+            rd, srt = _load(fp, sort if sort == 'default' else int(sort))
+            r = _check_meadows_rdms(rd, nm, uv, srt, desc, 'seqExp')
+            if r:
+                return f'{label}: {r}'
+        if list(r1.pattern_descriptors['conds']) != snap[0] or not np.array_equal(np.asarray(r1.dissimilarities), snap[1]) \
+                or {k: list(v) for k, v in r1.rdm_descriptors.items()} != snap[2]:
+            return 'the RDMs returned by the first load changed when the files were loaded again'
     return None
 
 
@@ -864,17 +990,19 @@ def _design_inputs(case):
     rs = np.random.RandomState(case['seed'])
     n_cond, n_rep, tr, dur = case['n_cond'], case['n_rep'], case['tr'], case['dur']
     lead = case.get('lead', 6.0)
-    n_ev = n_cond * n_rep
+    # sweep: unbalanced designs (case['reps'] = number of events per condition; default n_rep for every condition)
+    reps = list(case.get('reps') or [n_rep] * n_cond)
+    n_ev = sum(reps)
     spacing = 8.0
     slots = rs.permutation(n_ev + 2)[:n_ev]
     if case.get('labels') == 'int':
-        names = [3, 1, 2, 7, 5][:n_cond]
+        names = [3, 1, 2, 7, 5, 11, 0, -4, 100, 6][:n_cond]
     else:
-        names = ['face', 'animal', 'zebra', 'b2', 'B1'][:n_cond]
+        names = ['face', 'animal', 'zebra', 'b2', 'B1', '10', '9', 'tool use', 'Face', 'a'][:n_cond]
     order = case.get('order', 'interleaved')
     conds = []
-    for rep in range(n_rep):
-        conds += list(range(n_cond))
+    for rep in range(max(reps)):
+        conds += [c for c in range(n_cond) if reps[c] > rep]
     if order == 'blocked':
         conds = sorted(conds)
     elif order == 'random':
@@ -882,23 +1010,42 @@ def _design_inputs(case):
     rows = []
     for i, c in enumerate(conds):
         d = dur if not case.get('mixed_durations') else (dur if i % 3 else dur * 2)
-        rows.append(dict(onset=lead + float(slots[i]) * spacing + float(np.round(rs.uniform(0, 3), 2)), duration=d,
-                         trial_type=names[c]))
+        onset = lead + float(slots[i]) * spacing + float(np.round(rs.uniform(0, 3), 2))
+        if case.get('int_times'):           # sweep: integer-typed onset / duration columns (whole seconds)
+            onset, d = int(round(onset)), max(1, int(round(d)))
+        if case.get('extra_cols'):          # sweep: further columns of a BIDS events file, trial_type not last
+            rows.append(dict(stim_file='img/%d.png' % i, trial_type=names[c], response_time=0.4 + 0.01 * i, duration=d,
+                             onset=onset, value=i % 2))
+        else:
+            rows.append(dict(onset=onset, duration=d, trial_type=names[c]))
     if case.get('sort_by_onset', True):
         rows.sort(key=lambda r: r['onset'])
     events = pandas.DataFrame(rows)
+    if case.get('index') == 'shuffled':     # sweep: row labels of a table that was filtered / concatenated before
+        events.index = np.random.RandomState(case['seed'] + 7).permutation(len(rows)) * 3 + 100
     n_vols = int(np.ceil((lead + (n_ev + 2) * spacing + 40 + 2 * dur) / tr)) + case.get('extra_vols', 0)
     confounds = None
     n_cf = case.get('n_cf')
     if n_cf is not None:
         cols = {}
         cfn = ['csf', 'trans_x', 'rot_z', 'white_matter', 'global_signal', 'framewise_displacement']
+        cf_dtype = case.get('cf_dtype', 'float64')
         for j in range(n_cf):
             v = rs.randn(n_vols) * (j + 1) + 10 * j
-            if j in case.get('nan_cols', []):
-                v[0] = np.nan
+            v = v * case.get('cf_scale', 1.0)           # sweep: confounds in other units (range-normalisation removes the unit)
+            if np.dtype(cf_dtype).kind != 'f':
+                v = np.round(v * 10).astype(cf_dtype)   # sweep: integer-typed confound columns (no n/a possible)
+            else:
+                v = v.astype(cf_dtype)
+                if j in case.get('nan_cols', []):
+                    v[dict(first=0, last=n_vols - 1, middle=n_vols // 2)[case.get('nan_pos', 'first')]] = np.nan
             cols[cfn[j]] = v
-        confounds = pandas.DataFrame(cols, index=range(n_vols))
+        for j in range(case.get('spikes', 0)):          # sweep: 0/1 outlier regressors as written by fmriprep (int64)
+            v = np.zeros(n_vols, dtype=np.int64)
+            v[3 + 5 * j] = 1
+            cols['motion_outlier%02d' % j] = v
+        idx = range(n_vols) if case.get('index') != 'shuffled' else list(range(50, 50 + 2 * n_vols, 2))
+        confounds = pandas.DataFrame(cols, index=idx)
     return events, n_vols, confounds, names
 
 
@@ -907,9 +1054,30 @@ def orc_design_matrix(case):
     from rsatoolbox.io.fmriprep import make_design_matrix
     events, n_vols, confounds, names = _design_inputs(case)
     tr, dur = case['tr'], case['dur']
+    if case.get('int_args'):        # sweep: TR given as a Python int, the number of volumes as a numpy integer
+        tr, n_vols = int(tr), np.int64(n_vols)
     ev_keep = events.copy(deep=True)
     cf_keep = None if confounds is None else confounds.copy(deep=True)
     dm, mask, dof = make_design_matrix(events, tr=tr, n_vols=n_vols, confounds=confounds)
+    if case.get('twice'):
+        # call sequence: the same call again gives the same result, and the result held from the first call is not touched
+        first = (np.array(dm, copy=True), np.array(mask, copy=True), dof)
+        # ... a call with tables of the same shape and other content (all onsets 2 s later, confounds reversed in time) in between
+        ev_o = events.copy(deep=True)
+        ev_o['onset'] = ev_o['onset'] + 2
+        cf_o = None if confounds is None else confounds.iloc[::-1].reset_index(drop=True)
+        dm_o, mask_o, dof_o = make_design_matrix(ev_o, tr=tr, n_vols=n_vols, confounds=cf_o)
+        if np.asarray(dm_o).shape != first[0].shape or dof_o != dof:
+            return 'tables of the same shape give a matrix of another shape / other dof'
+        if np.array_equal(np.asarray(dm_o)[:, 0], first[0][:, 0]):
+            return 'the first condition column did not change although all onsets were moved by 2 s'
+        if not np.array_equal(np.asarray(dm), first[0]) or not np.array_equal(np.asarray(mask), first[1]):
+            return 'the result of the first call changed when the function was called with other tables of the same shape'
+        dm_b, mask_b, dof_b = make_design_matrix(events, tr=tr, n_vols=n_vols, confounds=confounds)
+        if not np.array_equal(np.asarray(dm_b), first[0]) or not np.array_equal(np.asarray(mask_b), first[1]) or dof_b != dof:
+            return 'the same call made twice gives different results'
+        if not np.array_equal(np.asarray(dm), first[0]) or not np.array_equal(np.asarray(mask), first[1]):
+            return 'the result of the first call changed when the function was called again'
     # conditions in order of first appearance in the table
     conds = []
     for v in ev_keep.trial_type.tolist():
@@ -1024,10 +1192,29 @@ def _spm_setup(case):
         for n, q in zip(nscans, X0):
             Y[b:b + n] = Y[b:b + n] - q @ (q.T @ Y[b:b + n])
             b += n
+    # sweep: data in other legitimate units, typed data (raw scanner data are int16, nibabel hands out float32), memory layout
+    Y = Y * case.get('scale', 1.0)
+    dt = case.get('dtype')
+    if dt:
+        if np.dtype(dt).kind != 'f':
+            Y = np.clip(np.round(Y * 20), np.iinfo(dt).min, np.iinfo(dt).max)
+        Y = Y.astype(dt)
+    if case.get('layout') == 'F':
+        Y = np.asfortranarray(Y)
+    elif case.get('layout') == 'strided':
+        big = np.zeros((T, 2 * P), dtype=Y.dtype)
+        big[:, ::2] = Y
+        Y = big[:, ::2]
     return nscans, X0, Y, rs
 
 
+def _spm_tol(case, tol):
+    """tolerance relative to the size of the data; float32 data leave 24 bits"""
+    return 2e-5 if case.get('dtype') == 'float32' else tol
+
+
 def _spec_filter(nscans, X0, Y):
+    Y = np.asarray(Y, dtype=float)
     out = np.empty_like(Y)
     b = 0
     for n, q in zip(nscans, X0):
@@ -1054,13 +1241,46 @@ def orc_spm_filter(case):
     out = s.spm_filter(Y)
     if not np.array_equal(Y, keep):
         return 'spm_filter modified its input'
+    if Y.dtype != keep.dtype:
+        return 'spm_filter changed the type of its input'
     out = np.asarray(out)
     if out.shape != Y.shape:
         return f'result shape {out.shape}, data {Y.shape}'
     want = _spec_filter(nscans, X0, keep)
+    sweep = any(k in case for k in ('scale', 'dtype', 'layout', 'sequence'))
+    ref = float(np.abs(keep).max())      # size of the data: the comparisons of the sweep classes are relative to it
+    tol = _spm_tol(case, 1e-9)
+    if case.get('sequence'):
+        # call sequence: another object for the same GLM directory with the same run structure but OTHER filter bases and other
+        # data; then the first one again.  The held first result must not change, the repeated call must reproduce it.
+        first = out.copy()
+        case2 = dict(case, seed=case['seed'] + 17)
+        nscans2, X02, Y2, _ = _spm_setup(case2)
+        s2 = _make_glm('/proj/glm', _FakeNitools(None), nscans2, X02)
+        out2 = np.asarray(s2.spm_filter(Y2))
+        if not _relclose(out2, _spec_filter(nscans2, X02, Y2), tol, float(np.abs(Y2).max())):
+            return 'second GLM object with the same run structure and other filter bases: rows are not Y_i - X0_i X0_i\'Y_i'
+        again = np.asarray(s.spm_filter(Y))
+        if not np.array_equal(again, first):
+            return 'the same call made twice gives different results'
+        if not np.array_equal(out, first):
+            return 'the result of the first call changed when the filter was applied again'
+        if not np.array_equal(Y, keep):
+            return 'spm_filter modified its input (second call)'
     b = 0
     for i, (n, q) in enumerate(zip(nscans, X0)):
         blk = out[b:b + n]
+        if sweep and not _relclose(blk, want[b:b + n], tol, ref):
+            dev = float(np.abs(np.asarray(blk, dtype=float) - want[b:b + n]).max()) if blk.shape == want[b:b + n].shape else None
+            comp = float(np.abs(q.T @ blk).max()) if q.shape[1] else 0.0
+            return f'run {i} ({n} scans, {q.shape[1]} filter regressors, data {keep.dtype} of size {ref:.3g}): rows are not ' \
+                   f'Y_i - X0_i X0_i\'Y_i: max deviation {dev:.3g}, max |X0_i\' out_i| = {comp:.3g} (result dtype {out.dtype})'
+        if sweep and q.shape[1] and np.abs(q.T @ blk).max() > tol * ref * 10:
+            return f'run {i}: filtered data still has a component in the filter regressors ' \
+                   f'({float(np.abs(q.T @ blk).max()):.3g} for data of size {ref:.3g})'
+        if sweep:
+            b += n
+            continue
         if not close(blk, want[b:b + n], 1e-9):
             comp = float(np.abs(q.T @ blk).max()) if q.shape[1] else 0.0
             same = bool(np.array_equal(blk, keep[b:b + n]))
@@ -1119,6 +1339,15 @@ def orc_spm_residuals(case):
         return 'sample_images not called once with the raw data files and the mask coordinates'
     if np.asarray(res).shape != want_res.shape or np.asarray(beta).shape != (R * nreg, Y.shape[1]):
         return f'shapes residuals {np.asarray(res).shape}, beta {np.asarray(beta).shape}'
+    if 'scale' in case or 'dtype' in case:          # sweep classes: compared relative to the size of the data
+        ref = float(np.abs(np.asarray(Y, dtype=float)).max())
+        tol = _spm_tol(case, 1e-8)
+        if not _relclose(res, want_res, tol, ref):
+            dev = float(np.abs(np.asarray(res, dtype=float) - want_res).max())
+            return f'residuals are not those of the high-pass filtered, weighted data (max deviation {dev:.3g} for {Y.dtype} ' \
+                   f'data of size {ref:.3g})'
+        if not _relclose(beta, want_beta[:R * nreg], tol * 10, ref):
+            return f'betas are not the estimates from the high-pass filtered, weighted data ({Y.dtype} data of size {ref:.3g})'
     if not close(res, want_res, 1e-8):
         dev = float(np.abs(np.asarray(res) - want_res).max())
         return f'residuals are not those of the high-pass filtered, weighted data (max deviation {dev:.3g})'
@@ -1212,6 +1441,52 @@ def orc_spm_relocate(case):
 
 
 # =====================================================================================================
+# environment: a new interpreter with another PYTHONHASHSEED
+# =====================================================================================================
+_FRESH_CHILD = """
+import json, sys, warnings
+warnings.simplefilter('ignore')
+import contracts.C20_c  # noqa
+from vf.rt.harness import ORACLES
+out = []
+for name, case in json.load(sys.stdin):
+    try:
+        r = ORACLES[name](case)
+    except Exception as e:
+        r = 'exception %s: %s' % (type(e).__name__, e)
+    out.append(r)
+json.dump(out, sys.stdout)
+"""
+
+
+@oracle('C20/fresh-interpreter')
+def orc_fresh_interpreter(case):
+    """the oracles listed in case['jobs'] hold as well in NEW interpreters started with PYTHONHASHSEED in case['hashseeds'] (same
+    library, same sys.path): what is recovered from names and files may not depend on the iteration order of sets of strings"""
+    import subprocess
+    env_base = dict(os.environ, PYTHONPATH=os.pathsep.join(q for q in sys.path if q), MPLBACKEND='Agg', PYTHONDONTWRITEBYTECODE='1')
+    procs = []
+    for hs in case['hashseeds']:
+        procs.append((hs, subprocess.Popen([sys.executable, '-c', _FRESH_CHILD], stdin=subprocess.PIPE, stdout=subprocess.PIPE,
+                                           stderr=subprocess.PIPE, env=dict(env_base, PYTHONHASHSEED=str(hs)), text=True)))
+    res = None
+    for hs, pr in procs:
+        try:
+            o, e = pr.communicate(json.dumps(case['jobs']), timeout=300)
+        except subprocess.TimeoutExpired:
+            pr.kill()
+            res = res or f'PYTHONHASHSEED={hs}: the new interpreter did not finish within 300 s'
+            continue
+        if pr.returncode != 0:
+            res = res or f'PYTHONHASHSEED={hs}: the new interpreter failed: {e.strip().splitlines()[-2:]}'
+            continue
+        for (name, job), r in zip(case['jobs'], json.loads(o)):
+            if r is not None:
+                res = res or f'under PYTHONHASHSEED={hs}: {name} on {json.dumps(job)[:300]}: {r}'
+    return res
+
+
+# =====================================================================================================
 # domains
 # =====================================================================================================
 def _bids_cases(no_modality=False, families=None, exts=None):
@@ -1234,7 +1509,9 @@ def tier_c(run, thorough):
 
     # ---------------- BIDS ----------------
     dom = (f'ALL 2^6 presence/absence combinations of derivative, ses, task, run, space, desc x extensions {BIDS_EXTS} x '
-           f'{nfam} value families ({", ".join(BIDS_FAMILIES)}); modality directory present')
+           f'{nfam} value families ({", ".join(BIDS_FAMILIES)}); modality directory present; 1-3 families x extensions '
+           f'{BIDS_EXTS_SWEEP if thorough else BIDS_EXTS_SWEEP[:2]}; rebuild: layout roots {BIDS_ROOTS_SWEEP}; look-ups: call '
+           'sequences (repeated, reversed, interleaved with another file) for 3 pairs of families')
     for name, orc, fn in (('C20/bids-parse', orc_bids_parse, 'BidsFile._deconstruct'),
                           ('C20/bids-rebuild', orc_bids_rebuild, 'BidsLayout._replace'),
                           ('C20/bids-lookups', orc_bids_lookups, 'BidsLayout.find_meta_for')):
@@ -1245,6 +1522,21 @@ def tier_c(run, thorough):
             exhaustive=True, function=fn)
         for fam, case in _bids_cases():
             bd.check(orc, case, fam, function='BidsFile._findEntity' if orc is orc_bids_parse else fn)
+        # sweep: other single / multi-part extensions; other roots of the layout (rebuild: absolute paths)
+        for fam, case in _bids_cases(families=['mixed'] + (['own-key-letters', 'all-values-equal'] if thorough else []),
+                                     exts=BIDS_EXTS_SWEEP if thorough else BIDS_EXTS_SWEEP[:2]):
+            bd.check(orc, case, 'other-extensions', function='BidsFile._deconstruct' if orc is orc_bids_parse else fn)
+        if orc is orc_bids_rebuild:
+            for root in BIDS_ROOTS_SWEEP:
+                for fam, case in _bids_cases(families=['mixed'], exts=['nii.gz']):
+                    bd.check(orc, dict(case, root=root), 'other-layout-roots', function='BidsLayout.abs_path')
+        if orc is orc_bids_lookups:
+            # sweep, call sequences: look-ups repeated, in reversed order, interleaved with those of another file of the same shape
+            pairs = [('numeric', 'mixed'), ('own-key-letters', 'camel'), ('all-values-equal', 'single-char-own-key-letter')]
+            for fa, fb in pairs:
+                for (_, ca), (_, cb) in zip(_bids_cases(families=[fa], exts=['nii.gz']), _bids_cases(families=[fb], exts=['nii.gz'])):
+                    bd.check(orc_bids_sequence, dict(ents=ca['ents'], other=cb['ents'], sibs=BIDS_SIBS[:2]), 'call-sequence',
+                             function='BidsLayout._replace')
         bd.done()
         bds.append(bd)
 
@@ -1275,12 +1567,18 @@ def tier_c(run, thorough):
             for tasks in (None, [v['task']], [other_task, v['task']]):
                 bd.check(orc_bids_files, dict(files=files, desc='preproc', tasks=tasks), fam,
                          function='BidsLayout.find_mri_derivative_files')
+                if fam == 'numeric' and len(drop) < 2 and (thorough or tasks is not None):
+                    # sweep: the same relative paths in another root with OTHER file content; task filter as tuple / ndarray
+                    for salt, tasks_as in ((1, 'list'), (50, 'tuple'), (7, 'ndarray')):
+                        bd.check(orc_bids_files, dict(files=files, desc='preproc', tasks=tasks, salt=salt, tasks_as=tasks_as),
+                                 'same-paths-other-content', function='BidsJsonFile.get_data')
     bd.done()
     bds.append(bd)
 
     # ---------------- MNE ----------------
     bd = Bounded(run, 'C20/mne-epochs', 'C20/dataset_from_epochs/oracle/mne-epochs',
-                 'fake epochs objects, epochs 1..4 x channels 1..3 x times in {1, 2, 4} (sentinel data), descriptors none / omitted / given',
+                 'fake epochs objects, epochs 1..4 x channels 1..3 x times in {1, 2, 4} (sentinel data), descriptors none / omitted / given; '
+                 '3-5 shapes x data scaled by 1e-9 / 1e15, float32 / int32 / int16 data, int32 event codes, call sequences',
                  exhaustive=True, function='dataset_from_epochs')
     for ne in (1, 2, 3, 4):
         for nc in (1, 2, 3):
@@ -1290,6 +1588,18 @@ def tier_c(run, thorough):
                                 descriptors=dict(sub='01', filename='x_epo.fif') if dmode == 'given' else None,
                                 pass_descriptors=dmode != 'omitted')
                     bd.check(orc_mne_epochs, case, 'single-epoch' if ne == 1 else 'generic', function='dataset_from_epochs')
+    # sweep: units (tesla-sized and rescaled data), typed data and event codes, call sequences (second object of the same shape,
+    # same object again, caller modifies the first result)
+    variants = [('extreme-units', dict(scale=1e-9)), ('extreme-units', dict(scale=1e15)), ('typed-data', dict(dtype='float32')),
+                ('typed-data', dict(dtype='int32', events_dtype='int32')), ('typed-data', dict(dtype='int16', events_dtype='int64')),
+                ('call-sequence', dict())]
+    for (ne, nc, nt_) in ((1, 1, 1), (3, 2, 4), (4, 3, 2)) + (((6, 5, 7), (2, 1, 3)) if thorough else ()):
+        for dmode in ('none', 'omitted', 'given'):
+            for ic, extra in variants:
+                case = dict(seed=ne * 100 + nc * 10 + nt_, n_epochs=ne, n_channels=nc, n_times=nt_,
+                            descriptors=dict(sub='01', filename='x_epo.fif') if dmode == 'given' else None,
+                            pass_descriptors=dmode != 'omitted', sequence=True, **extra)
+                bd.check(orc_mne_epochs, case, ic, function='dataset_from_epochs')
     bd.done()
     bds.append(bd)
 
@@ -1317,6 +1627,11 @@ def tier_c(run, thorough):
             pairs = [[k, vals[k]] for k in ks]
             bd.check(orc_mne_read_epochs, dict(seed=3, n_epochs=3, n_channels=2, n_times=3, pairs=pairs, dir='/data/meg/sub-x'), fam,
                      function='read_epochs')
+        # sweep: a directory whose name itself looks like a file name with entities
+        pairs = [[k, vals[k]] for k in ('sub', 'task')]
+        bd.check(orc_mne_read_epochs, dict(seed=4, n_epochs=2, n_channels=2, n_times=3, pairs=pairs,
+                                           dir='/data/sub-zz_task-qq_run-99_meg/ses-1'), 'entities-in-directory-name',
+                 function='read_epochs')
     bd.done()
     bds.append(bd)
 
@@ -1336,6 +1651,9 @@ def tier_c(run, thorough):
                 pairs = [[k, vals[k]] for k in ('sub', 'run', 'task')]
                 bd.check(orc_mne_real, dict(seed=ne, n_epochs=ne, n_channels=nc, n_times=nt_, pairs=pairs, tmin=0.0), fam,
                          function='read_epochs')
+            for scale in (1e-9, 1e6):       # sweep: data of the size of MEG recordings (1e-15) / of rescaled data
+                bd.check(orc_mne_real, dict(seed=2, n_epochs=3, n_channels=2, n_times=4, pairs=pairs, tmin=-0.1, scale=scale),
+                         'extreme-units', function='read_epochs')
         bd.done()
         bds.append(bd)
 
@@ -1361,6 +1679,23 @@ def tier_c(run, thorough):
                                                  function='extract_filename_segments')
                                 else:
                                     bd.check(orc_meadows_filename, dict(common, participant=pn), shape, function='is_petname')
+    # sweep: experiment names equal to other parts of the name, version 0, task names with a dash, relative directory with 'v_v'
+    for shape in ('single-participant-single-task', 'single-participant-multi-task', 'multi-participant-single-task'):
+        for exp in ('Meadows', '1D', 'v', 'tree9'):
+            for version in (0, 7):
+                for structure, ext in (('1D', 'mat'), ('tree', 'json')):
+                    common = dict(shape=shape, exp=exp, version=version, structure=structure, ext=ext, dir='rel_dir/x_v_v2_y')
+                    if shape == 'multi-participant-single-task':
+                        for tn in ('multi-arrange', 'my-task2', 'v', 'Task10b'):
+                            bd.check(orc_meadows_filename, dict(common, task_name=tn), shape, function='extract_filename_segments')
+                    else:
+                        for pn in PETS[4:6]:
+                            if shape == 'single-participant-single-task':
+                                for ti in (2, 10, 100):
+                                    bd.check(orc_meadows_filename, dict(common, participant=pn, task_index=ti), shape,
+                                             function='extract_filename_segments')
+                            else:
+                                bd.check(orc_meadows_filename, dict(common, participant=pn), shape, function='is_petname')
     bd.done()
     bds.append(bd)
 
@@ -1386,6 +1721,24 @@ def tier_c(run, thorough):
                                 participant=PETS[n % 2], task_index=(1, 3)[n % 2])
                     ic = 'ragged-names-without-extension' if (kind == 'ragged' and sext == '') else f'{kind}-names'
                     bd.check(orc_meadows_mat_single, case, ic, function='load_rdms_comps_mat')
+    # sweep: typed values, other units, names whose alphabetical order is not the numerical one, extensions of different length,
+    # two stimuli (one pair), more stimuli
+    sweep_values = [('typed-values', dict(values='int')), ('typed-values', dict(values='int16')),
+                    ('typed-values', dict(values='float32')), ('extreme-units', dict(scale=1e-12)), ('extreme-units', dict(scale=1e9))]
+    for n in (3, 4, 6):
+        for ic, extra in sweep_values:
+            for sort in (0, 1, 'default'):
+                case = dict(seed=n + 11, n_stim=n, names='ragged', stim_ext='.png', sort=sort, exp='myExp', version=1,
+                            participant=PETS[2], task_index=2, **extra)
+                bd.check(orc_meadows_mat_single, case, ic, function='load_rdms')
+    for n, kind, sext, ic in [(n, 'numeric-strings', e, 'numeric-string-names') for n in (4, 6, 9) for e in ('.png', '', 'mixed')] + \
+            [(n, 'ragged', 'mixed', 'extensions-of-different-length') for n in (3, 5)] + \
+            [(2, 'equal-length', '.png', 'two-stimuli'), (2, 'ragged', '', 'two-stimuli')] + \
+            [(n, 'many', '.png', 'many-stimuli') for n in ((12, 20, 40) if thorough else (12,))]:
+        for sort in (0, 1, 'default'):
+            case = dict(seed=n + 5, n_stim=n, names=kind, stim_ext=sext, sort=sort, exp='myExp', version=1,
+                        participant=PETS[3], task_index=1)
+            bd.check(orc_meadows_mat_single, case, ic, function='load_rdms')
     bd.done()
     bds.append(bd)
 
@@ -1418,6 +1771,33 @@ def tier_c(run, thorough):
                 case = dict(seed=n, n_stim=n, names='equal-length', sort=sort, exp='twoMa', version=2, participants=parts,
                             task_name='arrangement', layout='interleaved', order_differs=True)
                 bd.check(orc_meadows_mat_multi, case, 'stimulus-order-differs-between-participants', function='load_rdms_comps_mat')
+    # sweep: typed values / units / numeric-string names / extensions of different length / more participants and stimuli, with
+    # the same and with a different stimulus order per participant (there the loader permutes the vectors itself)
+    five = ['wise-ox', 'sure-cat', 'able-fly', 'clean-koi', 'cuddly-bunny']
+    sweep_multi = [('typed-values', dict(values='int')), ('typed-values', dict(values='int16')), ('typed-values', dict(values='float32')),
+                   ('extreme-units', dict(scale=1e-12)), ('extreme-units', dict(scale=1e9)),
+                   ('numeric-string-names', dict(names='numeric-strings')), ('numeric-string-names', dict(names='numeric-strings', stim_ext='')),
+                   ('extensions-of-different-length', dict(names='ragged', stim_ext='mixed'))]
+    for n in (3, 5):
+        for parts in (part_sets[1], part_sets[3], five):
+            for ic, extra in sweep_multi:
+                for differs in (False, True):
+                    for sort in (0, 1):
+                        case = dict(dict(seed=n + 2, n_stim=n, names='equal-length', sort=sort, exp='twoMa', version=2,
+                                         participants=parts, task_name='arrangement', layout='stimuli-first', order_differs=differs),
+                                    **extra)
+                        bd.check(orc_meadows_mat_multi, case, ic, function='load_rdms_comps_mat')
+    for n in ((12, 20) if thorough else (12,)):
+        for differs in (False, True):
+            case = dict(seed=n, n_stim=n, names='many', sort=1, exp='twoMa', version=2, participants=five, task_name='arrangement',
+                        layout='rdm-rotated', order_differs=differs)
+            bd.check(orc_meadows_mat_multi, case, 'many-stimuli', function='load_rdms_comps_mat')
+    if False:  # pending triage: two-stimuli-multi-participant
+        for parts in part_sets[:3]:
+            for sort in (0, 1):
+                case = dict(seed=2, n_stim=2, names='equal-length', sort=sort, exp='twoMa', version=2, participants=parts,
+                            task_name='arrangement', layout='interleaved')
+                bd.check(orc_meadows_mat_multi, case, 'two-stimuli-multi-participant', function='load_rdms_comps_mat')
     bd.done()
     bds.append(bd)
 
@@ -1434,6 +1814,30 @@ def tier_c(run, thorough):
                                 participant='informed-mole', tasks=tl)
                     bd.check(orc_meadows_json, case, 'with-mismatching-task' if 'ma-other-stimuli' in tl else
                              ('one-ma-task' if tl.count('ma') == 1 else 'several-ma-tasks'), function='load_rdms_comps_json')
+    # sweep: whole-number values (a json writer stores 3, not 3.0), other units, key order inside the json objects, numeric-string
+    # names, extensions of different length, two stimuli
+    sweep_json = [('typed-values', dict(values='int')), ('typed-values', dict(values='float32')), ('extreme-units', dict(scale=1e-12)),
+                  ('extreme-units', dict(scale=1e9)), ('json-key-order', dict(key_order='reversed')),
+                  ('numeric-string-names', dict(names='numeric-strings')), ('numeric-string-names', dict(names='numeric-strings', stim_ext='')),
+                  ('extensions-of-different-length', dict(stim_ext='mixed')), ('two-stimuli', dict(n_stim=2, names='equal-length'))]
+    for n in (3, 5):
+        for tl in (task_lists[0], task_lists[3], task_lists[5]):
+            for ic, extra in sweep_json:
+                for sort in (0, 1):
+                    case = dict(dict(seed=n + 1, n_stim=n, names='ragged', stim_ext='.png', sort=sort, exp='twoMaTasks', version=1,
+                                     participant='informed-mole', tasks=tl), **extra)
+                    bd.check(orc_meadows_json, case, ic, function='load_rdms_comps_json')
+    bd.done()
+    bds.append(bd)
+
+    bd = Bounded(run, 'C20/meadows-sequence', 'C20/load_rdms/oracle/meadows-sequence',
+                 'call sequences: two files of the same name and shape with different content in two directories (single-participant '
+                 'mat, multi-participant mat, json) loaded alternately, sorted / unsorted / default; 3..5 stimuli x 3 kinds of names',
+                 function='load_rdms')
+    for kind in ('mat-single', 'mat-multi', 'json'):
+        for n in (3, 4, 5):
+            for names in ('equal-length', 'ragged', 'numeric-strings'):
+                bd.check(orc_meadows_sequence, dict(kind=kind, seed=n, n_stim=n, names=names), 'call-sequence', function='load_rdms')
     bd.done()
     bds.append(bd)
 
@@ -1451,7 +1855,9 @@ def tier_c(run, thorough):
     bd = Bounded(run, 'C20/design-matrix', 'C20/make_design_matrix/oracle/design-matrix',
                  f'seeded event tables: 1..4 conditions x 2-3 repetitions, TR in {trs}, block duration in {durs}, interleaved / blocked '
                  '/ random order, string / int labels, confounds none / 0..5 columns of which 0..3 contain n/a in the first volume, '
-                 'extra volumes after the design', function='make_design_matrix')
+                 'extra volumes after the design; 26 sweep variants (integer / float32 tables, 0/1 outlier columns, confounds scaled by '
+                 '1e-26..1e12, TR int, unbalanced, single events, 6-10 conditions, single confound, n/a in other volumes, other row '
+                 'labels / columns), each with the call repeated', function='make_design_matrix')
     cf_specs = [(None, []), (0, []), (2, []), (3, [1]), (5, [0, 2, 4]), (2, [0, 1])]
     seed = 0
     for tr in trs:
@@ -1472,6 +1878,42 @@ def tier_c(run, thorough):
         case = dict(seed=900 + seed, n_cond=3, n_rep=3, tr=2.0, dur=1.0, order='random', labels='str', n_cf=3, nan_cols=[2],
                     mixed_durations=True)
         bd.check(orc_design_matrix, case, 'mixed-durations', function='make_design_matrix')
+    # sweep: typed tables (integer onsets / durations, float32 / integer confounds, 0/1 outlier columns), confounds in other units,
+    # TR as int / volumes as numpy integer, unbalanced designs, a single event per condition, 6-10 conditions, a single confound,
+    # n/a in the last / a middle volume, other row labels, further columns, the same call twice
+    base = dict(n_cond=3, n_rep=2, tr=2.0, dur=1.0, order='random', labels='str', n_cf=3, nan_cols=[1], twice=True)
+    sweep_design = [
+        ('typed-tables', dict(int_times=True)), ('typed-tables', dict(int_times=True, int_args=True, dur=3.0, labels='int')),
+        ('typed-tables', dict(cf_dtype='float32')), ('typed-tables', dict(cf_dtype='int64', nan_cols=[])),
+        ('typed-tables', dict(cf_dtype='int16', nan_cols=[], spikes=2)), ('typed-tables', dict(spikes=3, n_cf=0, nan_cols=[])),
+        ('typed-tables', dict(int_args=True, tr=1.0)),
+        ('confounds-in-extreme-units', dict(cf_scale=1e-15)), ('confounds-in-extreme-units', dict(cf_scale=1e-26, n_cf=5, nan_cols=[0])),
+        ('confounds-in-extreme-units', dict(cf_scale=1e12)), ('confounds-in-extreme-units', dict(cf_scale=1e6, cf_dtype='float32')),
+        ('unbalanced-design', dict(reps=[1, 4, 2])), ('unbalanced-design', dict(reps=[3, 1, 1, 2], n_cond=4, order='blocked')),
+        ('unbalanced-design', dict(reps=[1, 1], n_cond=2, n_cf=None)), ('single-event-per-condition', dict(n_rep=1, n_cond=4)),
+        ('single-event-per-condition', dict(n_rep=1, n_cond=1, n_cf=1, nan_cols=[])),
+        ('many-conditions', dict(n_cond=6, n_rep=2)), ('many-conditions', dict(n_cond=10, n_rep=1, labels='int', order='interleaved')),
+        ('many-conditions', dict(n_cond=8, reps=[2, 1, 3, 1, 2, 2, 1, 1])),
+        ('single-confound', dict(n_cf=1, nan_cols=[])), ('single-confound', dict(n_cf=1, nan_cols=[0])),
+        ('na-in-other-volumes', dict(n_cf=4, nan_cols=[0, 2], nan_pos='last')), ('na-in-other-volumes', dict(n_cf=3, nan_cols=[1], nan_pos='middle')),
+        ('other-row-labels-and-columns', dict(index='shuffled')), ('other-row-labels-and-columns', dict(extra_cols=True)),
+        ('other-row-labels-and-columns', dict(index='shuffled', extra_cols=True, sort_by_onset=False, n_cf=None)),
+    ]
+    for k, (ic, extra) in enumerate(sweep_design):
+        for rep in range(3 if thorough else 1):
+            case = dict(dict(base, seed=2000 + 10 * k + rep), **extra)
+            if rep == 1:
+                case.update(tr=1.5, extra_vols=5)
+            if rep == 2:
+                case.update(tr=0.8, dur=3.0)
+            if case.get('int_args'):
+                case['tr'] = float(max(1, int(case['tr'])))
+            bd.check(orc_design_matrix, case, ic, function='make_design_matrix')
+    if False:  # pending triage: impulse-events-duration-0
+        for dur in (0.0, 0.05):
+            for seed in range(2):
+                case = dict(seed=2500 + seed, n_cond=2, n_rep=2, tr=2.0, dur=dur, order='random', labels='str', n_cf=None, nan_cols=[])
+                bd.check(orc_design_matrix, case, 'impulse-events-duration-0', function='make_design_matrix')
     bd.done()
     bds.append(bd)
 
@@ -1504,6 +1946,21 @@ def tier_c(run, thorough):
                          'data-orthogonal-to-filter', function='SpmGlm.spm_filter')
                 bd.check(orc_spm_filter, dict(seed=seed, nscans=nscans, ks=[0] * len(ks), P=P, mode='generic'),
                          'no-filter-regressors', function='SpmGlm.spm_filter')
+    # sweep: data in other units (compared RELATIVE to the size of the data), float32 data, memory layouts, call sequences
+    # (another GLM object of the same directory and run structure with other bases, the same call twice, held results)
+    sweep_spm = [('extreme-units', dict(scale=1e-12)), ('extreme-units', dict(scale=1e-26)), ('extreme-units', dict(scale=1e6)),
+                 ('extreme-units', dict(scale=1e12)), ('typed-data', dict(dtype='float32')), ('typed-data', dict(dtype='float32', scale=1e-9)),
+                 ('memory-layout', dict(layout='F')), ('memory-layout', dict(layout='strided')), ('call-sequence', dict(sequence=True))]
+    for nscans, ks in run_structs[2:6] + (run_structs[6:] if thorough else []):
+        for ic, extra in sweep_spm:
+            for mode in ('generic', 'data-orthogonal-to-filter'):
+                bd.check(orc_spm_filter, dict(dict(seed=5, nscans=nscans, ks=ks, P=3, mode=mode, sequence=True), **extra), ic,
+                         function='SpmGlm.spm_filter')
+    if False:  # pending triage: integer-typed-data
+        for nscans, ks in run_structs[2:5]:
+            for dt in ('int16', 'int32', 'uint8'):
+                bd.check(orc_spm_filter, dict(seed=5, nscans=nscans, ks=ks, P=3, mode='generic', dtype=dt), 'integer-typed-data',
+                         function='SpmGlm.spm_filter')
     bd.done()
     bds.append(bd)
 
@@ -1519,6 +1976,13 @@ def tier_c(run, thorough):
                 bd.check(orc_spm_residuals, dict(seed=seed, nscans=nscans, ks=ks, P=2, nreg=nreg, weight='identity',
                                                  mode='data-orthogonal-to-filter'), 'data-orthogonal-to-filter',
                          function='SpmGlm.get_residuals')
+    # sweep: raw data as the scanner / nibabel deliver them (int16, float32) and in other units; equal-length runs with different bases
+    for nscans, ks in (([6, 7], [2, 2]), ([7, 7, 7], [1, 2, 3])):
+        for ic, extra in (('typed-data', dict(dtype='int16')), ('typed-data', dict(dtype='float32')), ('typed-data', dict(dtype='uint8')),
+                          ('extreme-units', dict(scale=1e-12)), ('extreme-units', dict(scale=1e9))):
+            for weight in ('identity', 'random'):
+                bd.check(orc_spm_residuals, dict(dict(seed=7, nscans=nscans, ks=ks, P=2, nreg=2, weight=weight, mode='generic'), **extra),
+                         ic, function='SpmGlm.get_residuals')
     bd.done()
     bds.append(bd)
 
@@ -1531,6 +1995,18 @@ def tier_c(run, thorough):
                 for win in (False, True):
                     bd.check(orc_spm_mat_file, dict(seed=seed, nscans=nscans, ks=ks, P=2, conds=conds, windows=win),
                              'windows-paths' if win else 'posix-paths', function='SpmGlm.get_info_from_spm_mat')
+    # sweep: ten and more runs (two-digit run numbers in 'Sn(12) ...'), equal-length runs, condition names that look like other parts
+    for nr in (10, 12):
+        for conds in (['A'], ['Sn', 'bf', 'constantx']):
+            bd.check(orc_spm_mat_file, dict(seed=nr, nscans=[4] * nr, ks=[2] * nr, P=2, conds=conds, windows=False),
+                     'ten-or-more-runs', function='SpmGlm.get_info_from_spm_mat')
+    if False:  # pending triage: single-run-spm-mat
+        for conds in (['A'], ['face', 'house']):
+            bd.check(orc_spm_mat_file, dict(seed=1, nscans=[6], ks=[2], P=2, conds=conds, windows=False), 'single-run-spm-mat',
+                     function='SpmGlm.get_info_from_spm_mat')
+    if False:  # pending triage: condition-name-with-space
+        bd.check(orc_spm_mat_file, dict(seed=1, nscans=[5, 6], ks=[2, 2], P=2, conds=['left hand', 'b'], windows=False),
+                 'condition-name-with-space', function='SpmGlm.get_info_from_spm_mat')
     bd.done()
     bds.append(bd)
 
@@ -1543,6 +2019,61 @@ def tier_c(run, thorough):
                 for index in (',1  ', ',212  '):
                     bd.check(orc_spm_relocate, dict(glm_dir=glm_dir, old_root=old_root, windows=win, tail=tail, index=index),
                              'windows' if win else 'posix', function='SpmGlm.relocate_file')
+    # sweep: 'func' again further down the path (file names such as func_run1.nii, a func directory inside func)
+    for tail in (['func', 'func_run1.nii'], ['func', 'sub-01', 'func', 'sub-01_task-func_bold.nii']):
+        for old_root, win in (('/bla/dip', False), ('c:\\bla\\dip', True)):
+            bd.check(orc_spm_relocate, dict(glm_dir='/path/glm_firstlevel', old_root=old_root, windows=win, tail=tail, index=',3  '),
+                     'func-repeated-in-tail', function='SpmGlm.relocate_file')
+    if False:  # pending triage: old-root-contains-func
+        for old_root, win in (('/data/functional/proj', False), ('d:\\func_lab\\proj', True)):
+            bd.check(orc_spm_relocate, dict(glm_dir='/path/glm_firstlevel', old_root=old_root, windows=win, tail=['func', 'abc.nii'],
+                                            index=',1  '), 'old-root-contains-func', function='SpmGlm.relocate_file')
+    bd.done()
+    bds.append(bd)
+
+    # ---------------- environment ----------------
+    hashseeds = [1, 2, 3, 99, 4242] if thorough else [1, 4242]
+    vals = BIDS_FAMILIES['own-key-letters']
+    full = dict(vals, ext='nii.gz')
+    jobs = [
+        ['C20/bids-lookups', dict(ents=full, sibs=BIDS_SIBS)],
+        ['C20/bids-lookups', dict(ents=dict(BIDS_FAMILIES['value-is-other-key'], ext='nii', ses=None, space=None), sibs=BIDS_SIBS)],
+        ['C20/bids-sequence', dict(ents=full, other=dict(BIDS_FAMILIES['camel'], ext='nii.gz'), sibs=BIDS_SIBS[:2])],
+        ['C20/bids-files', dict(files=[dict(full, derivative='fmriprep', suffix='bold', desc='preproc'),
+                                       dict(full, derivative='fmriprep', suffix='bold', desc='preproc', task='rest'),
+                                       dict(full, derivative='fmriprep', suffix='bold', desc='preproc', sub='bobx'),
+                                       dict(full, derivative='fmriprep', suffix='bold', desc='other', sub='bobx')],
+                                desc='preproc', tasks=['rest', vals['task']])],
+        ['C20/mne-bids-filename', dict(pairs=[[k, vals[k]] for k in ('desc', 'run', 'task', 'ses', 'sub')], suffix='epo.fif')],
+        ['C20/mne-read-epochs', dict(seed=3, n_epochs=3, n_channels=2, n_times=3, pairs=[[k, vals[k]] for k in ('sub', 'run', 'task')],
+                                     dir='/data/meg/sub-x')],
+        ['C20/mne-epochs', dict(seed=5, n_epochs=4, n_channels=3, n_times=2, descriptors=dict(sub='01', filename='x_epo.fif', task='t'),
+                                pass_descriptors=True, sequence=True)],
+        ['C20/meadows-filename', dict(shape='multi-participant-single-task', exp='myExp', version=12, structure='1D', ext='mat',
+                                      dir='/data/my.study/v1_downloads', task_name='arrangement')],
+        ['C20/meadows-filename', dict(shape='single-participant-multi-task', exp='myExp', version=1, structure='tree', ext='json', dir='',
+                                      participant=PETS[1])],
+        ['C20/meadows-mat-single', dict(seed=9, n_stim=6, names='ragged', stim_ext='.png', sort=1, exp='myExp', version=1,
+                                        participant=PETS[0], task_index=3)],
+        ['C20/meadows-mat-multi', dict(seed=4, n_stim=5, names='ragged', sort=0, exp='twoMa', version=2,
+                                       participants=['wise-ox', 'sure-cat', 'able-fly', 'clean-koi', 'cuddly-bunny'],
+                                       task_name='arrangement', layout='rdm-rotated', order_differs=True)],
+        ['C20/meadows-mat-multi', dict(seed=5, n_stim=4, names='numeric-strings', sort=1, exp='twoMa', version=2,
+                                       participants=['wise-ox', 'sure-cat', 'able-fly'], task_name='arrangement', layout='stimuli-first')],
+        ['C20/meadows-json', dict(seed=5, n_stim=5, names='ragged', stim_ext='.png', sort=1, exp='twoMaTasks', version=1,
+                                  participant='informed-mole', tasks=['ma', 'other', 'ma', 'info', 'ma-other-stimuli', 'ma'])],
+        ['C20/meadows-sequence', dict(kind='mat-multi', seed=4, n_stim=4, names='ragged')],
+        ['C20/design-matrix', dict(seed=77, n_cond=5, n_rep=2, tr=2.0, dur=1.0, order='random', labels='str', n_cf=4, nan_cols=[1, 3])],
+        ['C20/design-matrix', dict(seed=78, n_cond=8, reps=[2, 1, 3, 1, 2, 2, 1, 1], n_rep=1, tr=1.5, dur=3.0, order='random', labels='str',
+                                   n_cf=None, nan_cols=[], sort_by_onset=False)],
+        ['C20/spm-mat-file', dict(seed=1, nscans=[4, 7, 5], ks=[2, 3, 2], P=2, conds=['face', 'house', 'zebra', 'b2'], windows=False)],
+        ['C20/spm-filter', dict(seed=2, nscans=[5, 5], ks=[2, 2], P=2, mode='generic')],
+    ]
+    bd = Bounded(run, 'C20/fresh-interpreter', 'C20/io/oracle/fresh-interpreter',
+                 'new interpreters started with PYTHONHASHSEED in %s (this process runs under %s), each running %d cases of the '
+                 'BIDS / MNE / Meadows / design-matrix / SPM oracles with string labels' %
+                 (hashseeds, os.environ.get('PYTHONHASHSEED', 'unset'), len(jobs)), function='load_rdms')
+    bd.check(orc_fresh_interpreter, dict(hashseeds=hashseeds, jobs=jobs), 'other-hash-seeds', function='load_rdms')
     bd.done()
     bds.append(bd)
     return bds
